@@ -817,8 +817,8 @@ func c04child(c *Ctx) {
 		}
 	}
 	// 2. seeded random configurations
-	N := 900
-	budget := 5000
+	N := 800
+	budget := 4000
 	if c.Thorough {
 		N = 12000
 		budget = 12000
